@@ -805,9 +805,13 @@ class Interp:
         if name in ("SUBSTR", "SUBSTRING") and len(vals) == 3:
             x, p, n = vals
             pv, nv = z3.simplify(C.num(p)), z3.simplify(C.num(n))
-            if x.kind != "s" or not (z3.is_int_value(pv) and z3.is_int_value(nv)) or pv.as_long() < 1 or nv.as_long() < 0:
-                raise Unmodelled("SUBSTR form")  # 1-based start >= 1 and length >= 0 only (negative / zero positions differ by engine)
+            if x.kind != "s" or not (z3.is_int_value(pv) and z3.is_int_value(nv)) or pv.as_long() < 1 or (nv.as_long() < 0 and self.dialect != "sqlite"):
+                raise Unmodelled("SUBSTR form")  # 1-based start >= 1 only; a negative length only for SQLite (zero / negative positions differ by engine)
             dc, kf = C.taint(x, p, n)
+            if nv.as_long() < 0:
+                # SQLite: a negative length returns the |n| characters BEFORE the start position
+                lo = max(0, pv.as_long() - 1 + nv.as_long())
+                return Cell(x.null, z3.SubString(x.val, z3.IntVal(lo), z3.IntVal(pv.as_long() - 1 - lo)), "s", dc, kf)
             return Cell(x.null, z3.SubString(x.val, z3.IntVal(pv.as_long() - 1), z3.IntVal(nv.as_long())), "s", dc, kf)
         if name in ("POWER", "POW"):
             return pdshim._power(*vals)
